@@ -20,7 +20,7 @@ RULE = (
     "pruning of emptied directories, add file, touch of independent copies, replace a file by a hard/symbolic "
     "link to an outside file with the same or other content) with harness-owned mtimes (os.utime(ns=...) from "
     "drawn deltas, stat triple verified to change), the configured type L2 in {[copy],[hardlink],[symlink],"
-    "[reflink,copy]}, cache history steps between checkouts (an object re-created through the store's add path: same "
+    "[reflink,copy]} (after a same-bytes foreign link, half the time the type of that very kind of link), cache history steps between checkouts (an object re-created through the store's add path: same "
     "oid and bytes, new inode; an object missing during an earlier checkout attempt and added afterwards - the "
     "harness's own re-creation lies outside every before/after snapshot pair) and a plan (forced checkout, repeat, relinking checkout, repeat | forced relinking checkout, "
     "repeat, plain checkout). Oracle: os.walk snapshot (bytes, mode) of every cache object equal before/after "
@@ -127,6 +127,11 @@ def cases(draw, max_files=8):
         case["l1"] = "hardlink"
         if draw(st.booleans()):
             case["l2"] = "hardlink"
+    # a file replaced by a link to an outside file with the same bytes matters most when the configured type is
+    # that very kind of link (it must not pass for a link to the cache object)
+    foreign = [e["how"] for e in case["edits"] if e["op"] == "ln" and e["same"]]
+    if foreign and draw(st.sampled_from([True, False])):
+        case["l2"] = "symlink" if foreign[-1] == "sym" else "hardlink"
     # further checkouts of the same (unchanged) object at the workspace path and at a second one, each with its own
     # configured link type, relinking or plain: the object acquires extra hard links / symlinks elsewhere before
     # a path is relinked. A single-file target always gets such a history (it is cheap), a tree often.
@@ -542,6 +547,13 @@ def run_case(case, ctx):
             cache_ops("pre3", odb2, target)
             if viols:
                 return Result(viols, False, classes)
+            def note_foreign_symlinks(snap):
+                # for the histogram: a tree entry that holds the target's bytes through a symlink to an outside file
+                if is_tree and any(r["kind"] == "symlink" and r.get("bytes") == flat[rel]
+                                   and observed_type(r, cpath(manifest[rel])) == "symlink-elsewhere"
+                                   for rel, r in snap.items() if rel in flat):
+                    classes.append(f"tree-entry-symlink-elsewhere-same-bytes:L2={l2}")
+
             if case["plan"] == "force-first":
                 r = call("forced", odb2, target, force=True)
                 if r != "raised":
@@ -559,6 +571,7 @@ def run_case(case, ctx):
                     if any(r["kind"] == "symlink" and os.stat(full(rel)).st_nlink > 1 for rel, r in snap.items()
                            if rel in flat):
                         classes.append("symlink-to-multilinked-object")
+                    note_foreign_symlinks(snap)
                     if call("relink", odb2, target, relink=True) != "raised":
                         check_equal("relink")
                         check_types("relink", l2)
@@ -567,6 +580,7 @@ def run_case(case, ctx):
                         check_equal("relink2")
                         check_types("relink2", l2)
             else:
+                note_foreign_symlinks(snap_ws(ws))
                 if call("forced-relink", odb2, target, force=True, relink=True) != "raised":
                     check_equal("forced-relink")
                     check_types("forced-relink", l2)
@@ -660,7 +674,7 @@ def _short(v):
 
 def run(ctx):
     mf = 8 if ctx.tier == "quick" else 16
-    ctx.run_given(cases(max_files=mf), run_case, ctx.n(quick=120, thorough=1200))
+    ctx.run_given(cases(max_files=mf), run_case, ctx.n(quick=160, thorough=1200))
 
 
 def replay(case, ctx):
